@@ -93,6 +93,17 @@ def battery_case(args):
         out["at (reordered point, same objects)"] = num(it.call(it.getattr(e, "at"), [pt2], {}))
         out["located (reordered point, same objects)"] = num(it.call(it.getattr(
             it.call(cref(model, "LocatedDifferential"), [e, pt2], {}), "component"), ["b"], {}))
+        # answers of comparisons are results too: the same expression located at the same point, the
+        # coordinates written in another order (compared with the FIXED spelling a..d, A, B, so that a
+        # comparison which depends on the written order changes with coord_order)
+        ref = make_point_concrete(it, {k: COORDS[k] for k in tuple(sorted(coord_order)) + ("A", "B")})
+        ld_ref = it.call(cref(model, "LocatedDifferential"), [e, ref], {})
+        out["point == reference spelling"] = repr(it.truth(it.compare("==", pt, ref)))
+        out["located == reference spelling"] = repr(it.truth(it.compare("==", ld, ld_ref)))
+        out["located != reference spelling"] = repr(it.truth(it.compare("!=", ld, ld_ref)))
+        out["early located == reference spelling"] = repr(it.truth(it.compare("==", lde, ld_ref)))
+        out["located hash == reference spelling"] = repr(it.call_builtin("hash", [ld], {}) == it.call_builtin("hash", [ld_ref], {}))
+        out["point hash == reference spelling"] = repr(it.call_builtin("hash", [pt], {}) == it.call_builtin("hash", [ref], {}))
         for label, coords in FAILING.items():
             order = [k for k in coord_order if k in coords]
             fp = make_point_concrete(it, {k: coords[k] for k in order})
